@@ -106,8 +106,11 @@ class SharedBufferAPI : public BufferAPI<ArrayT>
     bool readOnly() const override
      { return !_orig.writable(); }
 
+    //  The buffer of a read-only array is exported read-only, so fetch
+    // its address without the writability check (which would throw
+    // through the C-level getbuffer callback and abort the interpreter).
     void *buffer() override
-     { return static_cast<void *> (&_orig.direct_index(0)); }
+     { return static_cast<void *> (&_orig.unchecked_direct_index(0)); }
 
   private:
 
@@ -125,11 +128,17 @@ class CopyBufferAPI : public BufferAPI<ArrayT>
 
     using BufferAPI<ArrayT>::atomicSize;
 
+    //  A real (deep, writable) copy: the FixedArray copy constructor
+    // shares the data and the read-only flag of the original.
     explicit
     CopyBufferAPI (ArrayT &a)
-     : BufferAPI<ArrayT> (a.len(), a.stride()),
-              _copy (a)
-    {}
+     : BufferAPI<ArrayT> (a.len(), 1),
+              _copy (a.len(), PyImath::UNINITIALIZED)
+    {
+        const ArrayT &src = a;
+        for (Py_ssize_t i = 0; i < src.len(); ++i)
+            _copy.direct_index(i) = src.direct_index(i);
+    }
 
     virtual ~CopyBufferAPI() = default;
 
